@@ -234,7 +234,6 @@ class P(core.Prop):
             ddir = None
         config = TorConfig()
         config.__dict__['attach_protocol'] = lambda proto: defer.succeed(None)
-        progress = []
 
         def progress_cb(percent, tag, summary):
             cur.append(['progress', percent])
